@@ -65,7 +65,7 @@ fuzz_target!(|data: &[u8]| {
         };
         let d0 = dir(&mut u)?;
         let d1 = dir(&mut u)?;
-        let sc = PairScenario { dirs: [d0, d1], keepalive_ms: Some(1000), seed: u64::arbitrary(&mut u)?, zero_ch: 0, zero_mode: 1, links: [LinkCfg { latency_us: (u16::arbitrary(&mut u)? as u32) * 4, fates: Vec::new() }, LinkCfg { latency_us: (u16::arbitrary(&mut u)? as u32) * 4, fates: Vec::new() }], ticks: Vec::new(), tail: None };
+        let sc = PairScenario { dirs: [d0, d1], keepalive_ms: Some(1000), seed: u64::arbitrary(&mut u)?, zero_ch: 0, zero_mode: 1, links: [LinkCfg { latency_us: (u16::arbitrary(&mut u)? as u32) * 4, fates: Vec::new() }, LinkCfg { latency_us: (u16::arbitrary(&mut u)? as u32) * 4, fates: Vec::new() }], ticks: Vec::new(), tail: None, premature_acks: Vec::new() };
         let mut ops = Vec::new();
         while !u.is_empty() && ops.len() < 120 {
             ops.push(op(&mut u)?);
